@@ -1,8 +1,15 @@
 #!/bin/sh
-# builds the model driver from the extracted model (coq/model.ml, produced by extract/Extract.v)
+# builds the model driver from the extracted model (coq/model.ml, produced by extract/Extract.v).
+# The binary is replaced atomically, and only when its inputs changed, so that checks running in
+# parallel never see a half-written driver.
 set -e
 cd "$(dirname "$0")"
 mkdir -p build
-cp ../coq/model.ml ../coq/model.mli drv.ml build/
-cd build
-ocamlfind ocamlopt -O2 -w -a model.mli model.ml drv.ml -o drv
+sig=$(cat ../coq/model.ml ../coq/model.mli drv.ml | sha256sum | cut -d' ' -f1)
+if [ -x build/drv ] && [ "$(cat build/drv.sig 2>/dev/null)" = "$sig" ]; then exit 0; fi
+tmp=$(mktemp -d build/tmp.XXXXXX)
+cp ../coq/model.ml ../coq/model.mli drv.ml "$tmp"/
+(cd "$tmp" && ocamlfind ocamlopt -O2 -w -a model.mli model.ml drv.ml -o drv)
+mv -f "$tmp/drv" build/drv
+echo "$sig" > build/drv.sig
+rm -rf "$tmp"
